@@ -47,10 +47,10 @@ func (c *Ctx) RegionIndex() []core.Ob {
 		}
 		return o
 	}
-	sh := c.Fn("save/region.(*Region).setHead")
+	sh := c.regionHeaderWriter()
 	if sh == nil {
-		o := mk("setHead", "setHead exists", nil)
-		o.Status, o.Got = core.Violated, "save/region.(*Region).setHead not found"
+		o := mk("setHead", "the Region method that writes a header slot (offset 4*(major*32+minor)) exists", nil)
+		o.Status, o.Got = core.Violated, "no unexported method of Region multiplying a coordinate parameter by 32 found"
 		return []core.Ob{o}
 	}
 	major, minor := -1, -1
